@@ -113,6 +113,16 @@ package core
 //@   requires b != nil && wfBlob(b)
 //@   ensures count: result1 == nil ==> len(result0.Transactions) == len(b.Indexes.Transactions) && len(result0.Receipts) == len(b.Indexes.Receipts)
 
+// The per-transaction event lists are positional: entry i belongs to transaction i, whether or not
+// its receipt emitted events - nothing is filtered out.
+//@ func (extractAllTransactionEvents).extract
+//@   props C07
+//@   arith int
+//@   nosafe
+//@   requires b != nil && wfBlob(b)
+//@   modifies *
+//@   ensures aligned_with_receipts: result1 == nil ==> len(result0) == len(b.Indexes.Receipts)
+
 // ---- transaction hashes -------------------------------------------------------------------------------
 //@ opaque type github.com/NethermindEth/juno/core/felt.Felt
 //@ opaque type github.com/NethermindEth/juno/core.TransactionVersion
@@ -299,3 +309,36 @@ package core
 //@   callsite SetBytes@*: version_as_in_the_header: $1 == bytes(b.ProtocolVersion)
 //@   callsite PoseidonElems@*: block_preimage: len(elems) == 14 && elems[0] == starknetBlockHash1 && elems[2] == b.GlobalStateRoot && elems[3] == b.SequencerAddress && elems[12] == &felt.Zero && elems[13] == b.ParentHash
 //@   ensures hashed_once: result2 == nil ==> calls_PoseidonElems == old(calls_PoseidonElems) + 1 && calls_FeltSetBytes == old(calls_FeltSetBytes) + 1
+
+// ---- writing a block's transactions: one hash lookup per transaction and ALWAYS the combined entry -
+// Also for a block without transactions: readers of an empty block look the (empty) combined entry up.
+//@ extern func github.com/NethermindEth/juno/db/typed.(Bucket).Put
+//@   logged as BucketPut
+//@ func NewBlockTransactions
+//@   trusted
+//@ func WriteTransactionsAndReceipts
+//@   props C07
+//@   arith int
+//@   nosafe
+//@   assigns calls_BucketPut, arg_BucketPut_database, arg_BucketPut_key, arg_BucketPut_value
+//@   callsite Put@*: through_the_writer: $1 == w
+//@   loop 1: invariant one_lookup_per_transaction: calls_BucketPut == old(calls_BucketPut) + rangeindex + 1 && rangeindex + 1 <= len(transactions)
+//@   ensures lookups_and_combined_entry: result == nil ==> calls_BucketPut == old(calls_BucketPut) + len(transactions) + 1
+
+// Every L1 handler transaction of the block gets its message-hash lookup, wherever it sits among
+// the other transactions.
+//@ ghost var l1Hashed set[*L1HandlerTransaction]
+//@ func (*L1HandlerTransaction).MessageHash
+//@   trusted
+//@   sets l1Hashed = setadd(l1Hashed, l)
+//@ func WriteL1HandlerTxnHashByMsgHash
+//@   trusted
+//@   logged
+//@ func WriteL1HandlerMsgHashes
+//@   props C07
+//@   arith int
+//@   nosafe
+//@   assigns l1Hashed, calls_WriteL1HandlerTxnHashByMsgHash, arg_WriteL1HandlerTxnHashByMsgHash_w, arg_WriteL1HandlerTxnHashByMsgHash_msgHash, arg_WriteL1HandlerTxnHashByMsgHash_l1HandlerTxnHash
+//@   callsite WriteL1HandlerTxnHashByMsgHash@*: through_the_writer: $0 == w
+//@   loop 1: invariant handlers_so_far: (forall j int :: 0 <= j && j <= rangeindex && istype(txns[j], *L1HandlerTransaction) ==> setin(l1Hashed, cast(txns[j], *L1HandlerTransaction))) && (forall x *L1HandlerTransaction :: old(setin(l1Hashed, x)) ==> setin(l1Hashed, x))
+//@   ensures every_handler_indexed: result == nil ==> (forall j int :: 0 <= j && j < len(txns) && istype(txns[j], *L1HandlerTransaction) ==> setin(l1Hashed, cast(txns[j], *L1HandlerTransaction)))
